@@ -29,7 +29,8 @@ EXTENDS Naturals, Sequences, FiniteSets, Wide
 \* traits the resulting type implements
 SeqKinds     == {"seq", "seq_c", "seq_c0", "seq_adapt", "seq_inv", "seq_sel9", "seq_small", "seq_small3"}
 DictKinds    == {"dict", "dict_c", "dict_adapt", "dict_small"}
-SeqDictKinds == {"seqdict", "seqdict_c", "seqdict_adapt", "seqdict_inv", "seqdict_sel9", "seqdict_small"}
+SeqDictKinds == {"seqdict", "seqdict_c", "seqdict_adapt", "seqdict_inv", "seqdict_sel9", "seqdict_small",
+                 "seqdict_map", "seqdict_map2"}
 AllKinds     == {"plain"} \cup SeqKinds \cup DictKinds \cup SeqDictKinds
 \* SelectSmall / SelectZeroSmall implement the selection traits for boxed
 \* inventories only: their eps-copy / mmap forms cannot be queried
